@@ -140,6 +140,9 @@ def drv_batch(lines, timeout=1800):
     """run the model on a list of command s-expressions (python objects or strings); list of parsed replies"""
     if not DRV.exists():
         raise Infra(f"model driver missing: {DRV}")
+    lines = list(lines)
+    if not lines:
+        return []
     text = "\n".join(l if isinstance(l, str) else sx.dumps(l) for l in lines) + "\n"
     r = subprocess.run([str(DRV)], input=text.encode(), capture_output=True, timeout=timeout)
     if r.returncode != 0:
